@@ -81,7 +81,12 @@ bool LineParser::consume_line_number(LineNumber& output)
     if (!consume_uint())
         return false;
 
-    return string_to_line_number(std::string(start, m_current), output);
+    if (!string_to_line_number(std::string(start, m_current), output))
+        return false;
+
+    // Leave plenty of headroom so that arithmetic on line numbers read from a patch (adding
+    // offsets and line counts to them) can never overflow.
+    return output <= std::numeric_limits<LineNumber>::max() / 4;
 }
 
 std::string LineParser::parse_quoted_string()
